@@ -278,6 +278,12 @@ func (n *LocalNode) executeLeave() (pre, succ chord.VNode, err error) {
 		return nil, nil, chord.ErrNodeNoSuccessor
 	}
 	if pre.ID() == n.ID() && succ.ID() == n.ID() {
+		// even alone we need our own membership lock: a join request may be in flight, and leaving
+		// underneath it would strand the joiner with a dead ring and lose the keys it has not been handed
+		if curr, ok := n.state.Transition(chord.Active, chord.Leaving); !ok {
+			n.logger.Warn("Unable to acquire local leave lock", zap.String("state", curr.String()))
+			return nil, nil, chord.ErrLeaveInvalidState
+		}
 		n.logger.Debug("Skipping key transfer to successor because we are the only one left")
 		return
 	}
